@@ -915,7 +915,29 @@ func evalBoolFunc(f *ssa.Function, atom func(*ssa.Call) (bool, bool)) (bool, boo
 // computed from their operands (!, ==, != on booleans, φ by the edge taken); an atom that is not known,
 // or a boolean the interpreter cannot compute, makes the result unknown.
 func evalBoolFuncV(f *ssa.Function, atomV func(ssa.Value) (val, known, isAtom bool)) (bool, bool) {
+	return evalBoolFuncAt(f, func(v ssa.Value, _ func(ssa.Value) ssa.Value) (bool, bool, bool) { return atomV(v) })
+}
+
+// evalBoolFuncAt is evalBoolFuncV for functions that first select what they test (`x := a; if c { x = b };
+// return x == 0`): atomV also gets `at`, which maps a φ of any type to the operand that came in over the
+// edge the interpreted execution took, so that an atom is named by what it reads on this execution.
+func evalBoolFuncAt(f *ssa.Function, atomV func(v ssa.Value, at func(ssa.Value) ssa.Value) (val, known, isAtom bool)) (bool, bool) {
 	env := map[ssa.Value]bool{}
+	taken := map[*ssa.Phi]ssa.Value{}
+	at := func(v ssa.Value) ssa.Value {
+		for n := 0; n < 8; n++ {
+			phi, isPhi := v.(*ssa.Phi)
+			if !isPhi {
+				break
+			}
+			in, ok := taken[phi]
+			if !ok {
+				break
+			}
+			v = in
+		}
+		return v
+	}
 	var prev *ssa.BasicBlock
 	b := f.Blocks[0]
 	val := func(v ssa.Value) (bool, bool) {
@@ -930,7 +952,7 @@ func evalBoolFuncV(f *ssa.Function, atomV func(ssa.Value) (val, known, isAtom bo
 		for _, ins := range b.Instrs {
 			if v, isV := ins.(ssa.Value); isV {
 				if _, isPhi := ins.(*ssa.Phi); !isPhi && v.Type().Underlying().String() == "bool" {
-					if x, known, isAtom := atomV(v); isAtom {
+					if x, known, isAtom := atomV(v, at); isAtom {
 						if !known {
 							return false, false
 						}
@@ -943,6 +965,7 @@ func evalBoolFuncV(f *ssa.Function, atomV func(ssa.Value) (val, known, isAtom bo
 			case *ssa.Phi:
 				for k, p := range b.Preds {
 					if p == prev {
+						taken[x] = at(x.Edges[k])
 						if v, ok := val(x.Edges[k]); ok {
 							env[x] = v
 						}
